@@ -6,6 +6,7 @@ import Driver.C07
 import Driver.C11
 import Driver.C20
 import Driver.C19
+import Driver.C18
 open Lean
 
 def dispatch (prop : String) (input : Json) : Except String Json :=
@@ -17,6 +18,7 @@ def dispatch (prop : String) (input : Json) : Except String Json :=
   | "C11" => Driver.C11.handle input
   | "C20" => Driver.C20.handle input
   | "C19" => Driver.C19.handle input
+  | "C18" => Driver.C18.handle input
   | p => .error s!"no model for {p}"
 
 def handleLine (line : String) : String :=
